@@ -49,7 +49,7 @@
 void *__asan_region_is_poisoned(void *beg, size_t size) { (void) beg; (void) size; return NULL; }
 int __lsan_do_recoverable_leak_check(void) { return 0; }
 #endif
-const char *__asan_default_options(void) { return "exitcode=97:leak_check_at_exit=0:allocator_may_return_null=1:malloc_context_size=12:detect_stack_use_after_return=0:max_malloc_fill_size=65536:malloc_fill_byte=190"; }
+const char *__asan_default_options(void) { return "exitcode=97:leak_check_at_exit=0:allocator_may_return_null=1:malloc_context_size=12:detect_stack_use_after_return=0:max_malloc_fill_size=65536:malloc_fill_byte=190:quarantine_size_mb=32"; }
 const char *__ubsan_default_options(void) { return "print_stacktrace=1"; }
 const char *__lsan_default_options(void) { return "print_suppressions=0"; }
 
